@@ -201,7 +201,72 @@ class EnsureValidMethod(_Consumer):
     canaries = [("if _istoken(method):", "if _istoken(method.strip()):", "raises/ValueError-exactly-when")]
 
 
-CONTRACTS = [LengthWrite, LengthDone, ChunkWrite, ChunkDone, EnsureValidURI, EnsureValidMethod]
+
+# -- the protocol's entry point: one request at a time on the wire ---------------------------------------------------
+
+
+def write_to(I, request, transport):
+    """request.writeTo(transport) serialises the head and starts the body producer -- application code that may call
+    protocol.request() again: recorded with the protocol's state at that moment"""
+    c = ctx()
+    c.emit("writeTo", request, (transport,), {}, NSView({"p": snapshot_of(c.ghost["$objs"]["p"])}))
+    if c.ghost["write_raises"]:
+        raise RuntimeError("producer failed at once")
+    return c.ghost["written"]
+
+
+class RequestEntry(Contract):
+    """HTTP11ClientProtocol.request: refused (RequestNotSent, nothing written) unless the protocol is QUIESCENT; otherwise
+    the protocol is already TRANSMITTING when the request starts to be written -- so a request() issued from inside the
+    body producer is refused instead of being written into the middle of this one (seeded change C24-3)."""
+    prop = "C24"
+    module = M
+    function = "HTTP11ClientProtocol.request"
+    differential = False
+    calls = {"request.writeTo": write_to, "fail": lambda I, *a: (ctx().emit("fail", None, a), ctx().ghost["failed"])[1],
+             "Deferred": lambda I, *a, **kw: ctx().ghost["$contract"].opaque("finished"),
+             "TransportProxyProducer": lambda I, t: ctx().ghost["$contract"].opaque("proxy"),
+             "HTTPClientParser": lambda I, *a: ctx().ghost["$contract"].opaque("parser", _responseDeferred=ctx().ghost["$contract"].opaque("responsed")),
+             "written.addCallbacks": rec("addCallbacks"), "failed.addCallbacks": rec("addCallbacks"),
+             "RequestNotSent": "native"}
+    inputs = dict(state=OneOf("QUIESCENT", "TRANSMITTING", "WAITING", "TRANSMITTING_AFTER_RECEIVING_RESPONSE", "ABORTING",
+                              "CONNECTION_LOST", "GENERATION_FAILED"), write_raises=ForkBool())
+
+    def setup(self, i):
+        p = self.make(_newclient.HTTP11ClientProtocol, _state=i.state, _parser=None, _currentRequest=None, _finishedRequest=None,
+                      _responseDeferred=None, _transportProxy=None, transport=self.opaque("transport"))
+        req = self.opaque("request")
+        return dict(self=p, args=[req], objs=dict(p=p),
+                    ghost=dict(write_raises=i.write_raises, written=self.opaque("written"), failed=self.opaque("failed"), req=req))
+
+    def bounded_inputs(self, tier):
+        return iter(())  # the real protocol is re-entered in the bounded class ReentrantRequest
+
+    raises = ()
+
+    def _entry(S):
+        w = ev(S, "writeTo")
+        p = S.new.p
+        if S.i.state != "QUIESCENT":
+            from twisted.web._newclient import RequestNotSent
+            f = ev(S, "fail")
+            return band(len(w) == 0, len(f) == 1, len(f[0].args) == 1, isinstance(f[0].args[0], RequestNotSent),
+                        S.result is S.ghost["failed"], p._state == S.i.state, p._currentRequest is None, p._parser is None)
+        if len(w) != 1:
+            return False
+        return band(w[0].target is S.ghost["req"], w[0].snap.p._state == "TRANSMITTING", p._state == "TRANSMITTING",
+                    p._currentRequest is S.ghost["req"], p._parser is not None, p._finishedRequest is not None,
+                    S.result is p._finishedRequest, len(ev(S, "addCallbacks")) == 1)
+
+    ensures = dict(refused_unless_quiescent_and_transmitting_before_the_first_byte=_entry)
+    canaries = [("        self._state = \"TRANSMITTING\"\n        try:\n            _requestDeferred = request.writeTo(self.transport)\n        except BaseException:\n            _requestDeferred = fail()\n",
+                 "        try:\n            _requestDeferred = request.writeTo(self.transport)\n        except BaseException:\n            _requestDeferred = fail()\n        self._state = \"TRANSMITTING\"\n",
+                 "refused_unless_quiescent_and_transmitting_before_the_first_byte"),
+                ("        if self._state != \"QUIESCENT\":", "        if self._state == \"CONNECTION_LOST\":",
+                 "refused_unless_quiescent_and_transmitting_before_the_first_byte")]
+
+
+CONTRACTS = [LengthWrite, LengthDone, ChunkWrite, ChunkDone, EnsureValidURI, EnsureValidMethod, RequestEntry]
 # AgentTargetDerivation (URL -> request-target in client.URI) is outside the property's statement (the target is
 # given) and outside its anchors; it is not claimed here (see DESIGN.md, observations).
 BOUNDED = [k for k in bounded("C24") if k.__name__ != "AgentTargetDerivation"]
@@ -220,7 +285,10 @@ MANIFEST = dict(
          "WrongBodyLength exactly when bytes are missing: the body written under a Content-Length is never longer, and on "
          "success exactly as long, as declared.  ChunkedEncoder.write is proved to emit exactly `hex(len) CRLF data CRLF` for "
          "a non-empty write and nothing for an empty one, unregisterProducer exactly `0 CRLF CRLF`, once, after which the "
-         "encoder is closed.  Request line, headers, validators and producers are exercised in the bounded tier only: " + _SCOPE + ".",
+         "encoder is closed.  HTTP11ClientProtocol.request is proved to refuse (RequestNotSent, nothing written) in every state "
+         "but QUIESCENT and to be TRANSMITTING already when the request starts to be written, so that a request() from "
+         "inside the body producer cannot be written into the middle of this one.  Request line, headers, validators "
+         "and producers are exercised in the bounded tier only: " + _SCOPE + ".",
     note="Trusted: pyvc, SMT solvers, transport / producer / Deferred as recorded call-outs.  Everything else: bounded, never counted as proved.",
     technique="contract-based deductive verification (symbolic execution, linear integer and sequence VCs, call-out traces) + bounded exhaustive requests against h11",
 )
